@@ -1115,7 +1115,11 @@ def replace_dict_values(name: str,
     """
     new_dict = {}
     for n, v in dictionary.items():
-        if isinstance(v, np.ndarray):
+        # Only a non-empty 1D array of finite numbers has a range
+        # representation (for any other array computing it raises or, with
+        # repeated infinities, never ends). Other arrays are formatted as is.
+        if (isinstance(v, np.ndarray) and v.ndim == 1 and v.size > 0
+                and v.dtype.kind in 'iuf' and np.isfinite(v).all()):
             v = "[{0}]".format(get_mixed_range_representation(
                 v, filename_mode))
         new_dict[n] = v
